@@ -516,7 +516,7 @@ func main() {
 				if base.failed {
 					continue
 				}
-				if !r.Thorough() && len(cs) > 1 && code%27 != 0 {
+				if !r.Thorough() && (len(cs) > 1 || len(gg) > 5) && code%27 != 0 {
 					continue // quick: multi-clause queries on every 27th partition (all in thorough)
 				}
 				q := query(cs, []string{"?g1", "?g2", "?g3"})
